@@ -25,31 +25,70 @@ def run(ctx):
     loops = [s for s in A.walk_stmts(f.node.body) if isinstance(s, ast.While)]
     ctx.require(loops, "anchor vanished: the loop of simulate_plan")
     lp = loops[0]
-    ok = isinstance(lp.test, ast.NamedExpr) and A.norm(lp.test.value) == "gen.send(send_value)" and lp.test.target.id == "msg"
-    ctx.ob("C32.D1-send-value-provenance", cname(f, None, "msg := gen.send(send_value)"), ok, "" if ok else "the plan is not advanced with send_value", where=where(f, lp))
-    # reaching definitions of send_value at the loop test
-    heads = [n for n in g.nodes_of(lp) if g.nodes[n].kind == "test"]
-    defs = q.reaching_defs(g, heads[0], "send_value") if heads else []
-    vals = sorted({A.norm(v) for k, v, n in defs})
-    ok = bool(defs) and set(vals) <= {"None", "handler.runnable(msg)"} and "handler.runnable(msg)" in vals
-    ctx.ob("C32.D1-send-value-provenance", cname(f, None, "value sent = None or the chosen handler's result for the previous message"), ok,
-           "" if ok else f"definitions reaching gen.send: {vals}", nontrivial=True, where=where(f, lp))
-    first = lp.body[0] if lp.body else None
-    ok = first is not None and A.norm(first) == "send_value = None"
-    ctx.ob("C32.D1-send-value-provenance", cname(f, None, "send_value reset at the top of every iteration"), ok,
-           "" if ok else "a handler result can be sent again for a later message", nontrivial=True, where=where(f, lp))
-    # D2
-    apps = [s for s in A.walk_stmts(lp.body) if A.norm(s) == "messages.append(msg)"]
-    ok = len(apps) == 1 and apps[0] in lp.body
-    ctx.ob("C32.D2-messages-recorded", cname(f, None, "every message appended once, unconditionally"), ok, "" if ok else "messages are skipped / duplicated", where=where(f, lp))
-    ok = any(isinstance(s, ast.Return) and A.norm(s.value) == "messages" for s in f.node.body) and any(A.norm(s) == "messages = []" for s in f.node.body)
-    ctx.ob("C32.D2-messages-recorded", cname(f, None, "returns the list of messages"), ok, "" if ok else "return changed", where=where(f, f.node))
-    ok = not any(isinstance(s, (ast.Break, ast.Continue)) for s in A.walk_stmts(lp.body))
-    ctx.ob("C32.D2-messages-recorded", cname(f, None, "no break / continue in the loop"), ok, "" if ok else "loop can skip handling", where=where(f, lp))
-    # D3
-    hs = [s for s in A.walk_stmts(lp.body) if isinstance(s, ast.If) and isinstance(s.test, ast.NamedExpr) and s.test.target.id == "handler"]
-    ok = bool(hs) and A.norm(hs[0].test.value) == "next((h for h in self.message_handlers if h.predicate(msg)), None)" and [A.norm(x) for x in A.walk_stmts(hs[0].body) if isinstance(x, (ast.Assign, ast.AugAssign, ast.AnnAssign))] == ["send_value = handler.runnable(msg)"]
-    ctx.ob("C32.D3-first-matching-handler", cname(f, None, "first handler whose predicate matches; its result becomes send_value"), ok,
+    # the send: `gen.send(V)`; the message it returns is bound to M (walrus in the loop test or a plain assignment)
+    sends = [c for c in A.calls_in(f.node) if A.call_name(c) == "gen.send" and len(c.args) == 1]
+    ok = len(sends) == 1 and isinstance(sends[0].args[0], ast.Name)
+    ctx.ob("C32.D1-send-value-provenance", cname(f, None, "the plan is advanced by one gen.send(<variable>)"), ok, "" if ok else "the plan is not advanced with a send variable", where=where(f, lp))
+    if not ok:
+        return
+    V = sends[0].args[0].id
+    pm = A.parents(f.node)
+    holder = pm.get(sends[0])
+    M = holder.target.id if isinstance(holder, ast.NamedExpr) else (holder.targets[0].id if isinstance(holder, ast.Assign) and isinstance(holder.targets[0], ast.Name) else None)
+    ctx.ob("C32.D1-send-value-provenance", cname(f, None, "the yielded message is bound to a variable"), M is not None, "" if M else "message not bound", where=where(f, lp))
+    if M is None:
+        return
+    send_nodes = [n.id for n in g.nodes if n.ast is not None and any(c is sends[0] for c in ast.walk(n.ast))]
+    # every value ever assigned to V: None, or <handler>.runnable(M) where <handler> is the first match for M
+    vdefs = [x for x in A.walk_stmts(f.node.body) if any(isinstance(t, ast.Name) and t.id == V for t in A.targets_of(x))]
+    def is_first_match(e):
+        e = q.expand(f.node, e, keep=(M,))
+        if isinstance(e, ast.NamedExpr):
+            e = e.value
+        return isinstance(e, ast.Call) and A.call_name(e) == "next" and len(e.args) == 2 and isinstance(e.args[0], ast.GeneratorExp) and A.norm(e.args[1]) == "None" \
+            and A.norm(e.args[0].generators[0].iter) == "self.message_handlers" and len(e.args[0].generators[0].ifs) == 1 \
+            and A.norm(e.args[0].generators[0].ifs[0]) == f"{A.norm(e.args[0].generators[0].target)}.predicate({M})" and A.norm(e.args[0].elt) == A.norm(e.args[0].generators[0].target)
+    kinds = []
+    walrus_handlers = {n.target.id: n.value for n in ast.walk(f.node) if isinstance(n, ast.NamedExpr)}
+    for d in vdefs:
+        v = getattr(d, "value", None)
+        if isinstance(v, ast.Constant) and v.value is None:
+            kinds.append("None")
+        elif isinstance(v, ast.Call) and isinstance(v.func, ast.Attribute) and v.func.attr == "runnable" and [A.norm(a) for a in v.args] == [M] and not v.keywords:
+            h = v.func.value
+            src = walrus_handlers.get(h.id) if isinstance(h, ast.Name) and h.id in walrus_handlers else h
+            kinds.append("handler" if is_first_match(src) else "?handler")
+        else:
+            kinds.append("?" + A.short(v, 40))
+    ok = bool(kinds) and set(kinds) <= {"None", "handler"} and "handler" in kinds
+    ctx.ob("C32.D1-send-value-provenance", cname(f, None, "value sent = None or the FIRST matching handler's result for that message"), ok,
+           "" if ok else f"values assigned to the send variable: {sorted(set(kinds))}", nontrivial=True, where=where(f, lp))
+    # no stale value: on every path from one send to the next the send variable is assigned again
+    starts = [v for n in send_nodes for v, lab in g.succ[n] if not (isinstance(lab, tuple) and lab[0] == "exc")]
+    w = g.must_pass(starts, lambda n: n.stmt is not None and n.kind == "stmt" and n.stmt in vdefs, exits=send_nodes)
+    ctx.ob("C32.D1-send-value-provenance", cname(f, None, "the send variable is assigned afresh on every path from one send to the next"), w is None,
+           "" if w is None else "a handler result can be sent again for a later message", nontrivial=True, witness=w[-6:] if w else None, where=where(f, lp))
+    # the handler's result is only used under 'a handler matched'
+    # D2: every yielded message is recorded exactly once, in order, and the list is returned
+    rets = [x for x in f.node.body if isinstance(x, ast.Return) and isinstance(x.value, ast.Name)]
+    L = rets[-1].value.id if rets else None
+    apps = [x for x in A.walk_stmts(lp.body) if isinstance(x, ast.Expr) and isinstance(x.value, ast.Call) and A.call_name(x.value) == f"{L}.append" and [A.norm(a) for a in x.value.args] == [M]]
+    ok = L is not None and len(apps) == 1
+    ctx.ob("C32.D2-messages-recorded", cname(f, None, "the returned list is appended the message at one site"), ok, "" if ok else "messages are skipped / duplicated", where=where(f, lp))
+    if ok:
+        w = g.must_pass(starts, lambda n: n.stmt is apps[0], exits=send_nodes, edge_ok=lambda u, v, lab: True)
+        # the only way around the append is the loop exit (falsy message / StopIteration), which never reaches the next send
+        ctx.ob("C32.D2-messages-recorded", cname(f, None, "every path from one send to the next records the message"), w is None,
+               "" if w is None else "messages are skipped / duplicated", nontrivial=True, witness=w[-6:] if w else None, where=where(f, lp))
+        inner_loops = [x for x in A.walk_stmts(lp.body) if isinstance(x, (ast.For, ast.While)) and apps[0] in list(A.walk_stmts(x.body))]
+        ctx.ob("C32.D2-messages-recorded", cname(f, None, "recorded once per message (not in an inner loop)"), not inner_loops, "" if not inner_loops else "duplicated", where=where(f, lp))
+    inits = [x for x in f.node.body if isinstance(x, (ast.Assign, ast.AnnAssign)) and any(isinstance(t, ast.Name) and t.id == L for t in A.targets_of(x))]
+    ok = len(inits) == 1 and isinstance(inits[0].value, ast.List) and not inits[0].value.elts
+    ctx.ob("C32.D2-messages-recorded", cname(f, None, "returns the list of messages, started empty"), ok, "" if ok else "return changed", where=where(f, f.node))
+    conts = [x for x in A.walk_stmts(lp.body) if isinstance(x, ast.Continue)]
+    ctx.ob("C32.D2-messages-recorded", cname(f, None, "no continue in the loop"), not conts, "" if not conts else "loop can skip handling", where=where(f, lp))
+    ok = "handler" in kinds
+    ctx.ob("C32.D3-first-matching-handler", cname(f, None, "first handler whose predicate matches; its result becomes the send value"), ok,
            "" if ok else "handler selection changed", nontrivial=True, where=where(f, lp))
     ah = repo.func(SM, "RunEngineSimulator.add_handler")
     ins = [c for c in A.calls_in(ah.node) if A.call_name(c) == "self.message_handlers.insert"]
